@@ -3,7 +3,7 @@ import ast
 
 from ..astx import (calls_in, dotted, norm, src, iter_nodes, assigned_targets, assigned_names,
                     const_value, is_const, parent_chain)
-from ..lib import (cfg_nodes_with_call, node_calls, returns, raises, raised_class, stmt_assigns_attr, callee_last,
+from ..lib import (call_arg, relation, truth, other, cmp_views, core, holds_region, conditions, eval_conditions, relation_tests, atom_key, expand_condition, mode_mismatch_conditions, cfg_nodes_with_call, node_calls, returns, raises, raised_class, stmt_assigns_attr, callee_last,
                    is_name, node_roots, guard_region, compare_parts, find_test_nodes)
 from ..linear import ctext
 from ..loader import AnalysisError
@@ -119,13 +119,15 @@ def check_collect(c, f, recv):
 
 def check_continuation(c, f, recv):
     g = f.cfg
-    tests = [t for t in g.nodes if t.kind == 'test' and isinstance(t.ast, ast.Compare) and isinstance(t.ast.comparators[0], ast.Constant)
-             and isinstance(t.ast.comparators[0].value, int) and isinstance(t.ast.ops[0], (ast.Eq, ast.NotEq))]
+    isint = lambda e: isinstance(e, ast.Constant) and isinstance(e.value, int) and not isinstance(e.value, bool)
+    tests = relation_tests(g, 'eq', lambda e: not isint(e), isint)
     c.need(len(tests) == 1, '%s: test on the prompt index not found' % f.qual)
-    t = tests[0]
-    c.check(is_const(t.ast.comparators[0], 1) and isinstance(t.ast.ops[0], ast.Eq), f, t.ast,
+    t, lab = tests[0]
+    rel = relation(t.ast)
+    idx_e, const_e = (rel[1], rel[2]) if isint(rel[2]) else (rel[2], rel[1])
+    c.check(is_const(const_e, 1), f, t.ast,
             'the continuation prompt is recognised by index 1 (its position in the prompt list)', witness=norm(t.ast), kind='ast', tag='index-1')
-    reg = guard_region(g, t, 'true')
+    reg = guard_region(g, t, lab)
     kills = [n for n in reg if any(callee_last(k) == 'kill' and norm(k.args[0]) == 'signal.SIGINT' for k in node_calls(n))]
     rs = [n for n in reg if n.kind == 'stmt' and isinstance(n.ast, ast.Raise)]
     ws = [n for n in reg if any(callee_last(k) == '_expect_prompt' for k in node_calls(n))]
@@ -133,7 +135,7 @@ def check_continuation(c, f, recv):
         and g.dominated_by(ws[0], {kills[0]})[0] and g.dominated_by(rs[0], {ws[0]})[0]
     c.check(ok, f, t.ast, 'continuation prompt: SIGINT, exactly one resynchronising wait, then ValueError', witness='kills=%d waits=%d raises=%d' % (len(kills), len(ws), len(rs)), tag='continuation')
     # the tested value is the final wait's result
-    l = t.ast.left
+    l = idx_e
     ok = (isinstance(l, ast.Call) and callee_last(l) == '_expect_prompt') or (isinstance(l, ast.Name))
     if isinstance(l, ast.Name):
         defs = [n for n in g.nodes if n.kind == 'stmt' and l.id in assigned_names(n.ast)]
